@@ -63,6 +63,12 @@ func hash32(s string) bitcoin.Hash32 {
 	return *h
 }
 
+// otherNetworkFirst creates a repository configured for another network (called before anything else
+// in a C03 run).
+func otherNetworkFirst() {
+	headers.NewRepository(&headers.Config{Network: bitcoin.TestNet, MaxBranchDepth: 144}, vstore.New())
+}
+
 // realSplitPart: the real mainnet split table, on the real chain around height 556767.
 func realSplitPart() (vs []mc.Violation, evaluations int, samples []any) {
 	ctx := logger.ContextWithNoLogger(context.Background())
@@ -98,6 +104,13 @@ func realSplitPart() (vs []mc.Violation, evaluations int, samples []any) {
 	if bsv.BlockHash().String() != bsvHash || bch.BlockHash().String() != bchHash || hs[767].BlockHash().String() != bsvHash || hs[766].BlockHash().String() != beforeBCH {
 		fail("split-constants", "the BSV/BCH split headers do not hash to the published values")
 		return
+	}
+	// a repository of another network was created in this process before the mainnet ones (a process
+	// that follows testnet and mainnet, or a test binary): the mainnet repositories below must have
+	// the mainnet split table all the same
+	other := headers.NewRepository(&headers.Config{Network: bitcoin.TestNet, MaxBranchDepth: 144}, vstore.New())
+	if err := other.VerifyHeader(ctx, bsv); err == nil {
+		fail("other-network-verifies-bsv", "a repository configured for testnet accepts the mainnet BSV split header as proof of its chain")
 	}
 	build := func(upTo int) *headers.Repository {
 		repo := headers.NewRepository(headers.DefaultConfig(), vstore.New())
